@@ -55,6 +55,10 @@ Finish == phase = "read" /\ k > Len(prows) /\ phase' = "done" /\ UNCHANGED <<al,
 FilesNext == Write \/ Close \/ Read \/ Finish
 Done == phase = "done"
 
+(* the parangonada directory holds the alignment twice: align.csv and zalign.csv (a second alignment to compare with,
+   the first one again when none is given); each is written and read like the alignment above *)
+ZAlignWritten(a, z, given) == IF given THEN z ELSE a
+
 OneRowPerEntry == (phase # "write") => Len(prows) = Len(al) /\ Len(arows) = Len(al)
 RowsNumbered == \A j \in 1..Len(prows) : prows[j][1] = j - 1
 ReadBackIsPrefix == /\ pback = SubSeq(al, 1, Len(pback))
